@@ -7,7 +7,15 @@ MC = "model_checking"
 WIN_NOTE = ("Trusted: TLC + Json/IOUtils community modules; the Go driver (scenario interpreter, trace writer: decides nothing); the verif hooks "
             "(add-only). Assumes the window output buffer never overflows, a single producer, IDLETIMEOUT unset; event-time only "
             "(processing-time windows depend on the wall clock and are not replayed).")
+SEQ_NOTE = ("Trusted: TLC + Json/IOUtils modules; the Go driver (typed-value decoder, lock-step feeder, value projection to fixed point x10^4: decides nothing); "
+            "the scenario/SQL renderer in checks/*.py (the monitor trusts that the meta line describes the SQL); verif hooks. Single producer, rows fed in lock-step, results observed at a synchronous sink.")
 CLAIMS = {
+ "C09": dict(tech="TLA+ model of CountingWindow(N) with the key encoder (Counting.tla + lib/KeyEnc.tla) model-checked by TLC (contract per key TUPLE, encoder injectivity); every key sequence of the model at small bounds replayed in lock-step on the real engine; traces validated by TLC against the batch monitor TraceBatch",
+             text="TLC enumerates all key sequences of the model (plain keys, separator-like keys, NULL/missing/empty, two-column keys) up to the stated length; each is executed on the real engine and the recorded trace is validated by TLC: i-th delivery of a key = that key's rows (i-1)N+1..iN, nothing extra, nothing missing at quiescence. Bounded; goroutine schedules beyond lock-step are not explored (one goroutine owns the state, Add blocks on a channel).",
+             ref="DESIGN.md §4 C09", note=SEQ_NOTE + " STATETTL unset."),
+ "C03": dict(tech="TLA+ reference semantics of the 17 aggregate functions (lib/Agg.tla) evaluated by TLC on traces of real batches (TraceBatch), plus the TLA+ model AggBatch (incremental accumulators vs definition, reset between batches) model-checked by TLC",
+             text="Every value sequence up to the stated length over {NULL, missing, -3, 0, 2, 2, 7} (hence every permutation), 4 argument shapes, 1-2 groups, three consecutive batches per instance, is executed on the real engine; TLC checks each delivered value against the definition with exact integer arithmetic (fixed point), so NULL handling, leakage between batches/groups and per-row expression evaluation are decided on real outputs. Three known findings are admitted in their exact shape.",
+             ref="DESIGN.md §4 C03", note=SEQ_NOTE + " Small integer / half inputs; percentile accepted within its bracketing order statistics; merge_agg and 2-argument deduplicate not decided."),
  "C01": dict(tech="TLA+ model of the event-time tumbling window (Add/Trig/Send, one action per critical section) model-checked by TLC with the contract as invariants; every behaviour of the model at small bounds is forced onto the real engine through gates and the recorded traces are validated by TLC against the contract monitor TraceWin",
              text="TLC explores every interleaving of ingest and trigger goroutine of the code-shaped model within the stated constants and checks exactly-once / right-interval / no-loss as invariants; all enumerated behaviours plus seeded free-running inputs are executed on the real engine and every recorded trace is validated by TLC against the contract automaton, so the verdict is formed on real executions. Bounded (<=5 rows per scenario in lock-step, <=80 free-running), not a proof.",
              ref="DESIGN.md §4 C01", note=WIN_NOTE),
